@@ -166,6 +166,9 @@ def check(repo, col, tier):
     col.rule("R-C20-filter", "selection and re-scoping of the population views return fresh views", 12)
     c11._filter(repo, col, "R-C20-filter")
     c11.select_expansion(repo, col, "R-C20-filter")
+    # a population given as a group (or channel) restricted by a view is the restriction: every link derives its view from the receiver
+    col.rule("R-C20-chain", "every link of a selection chain derives its view from the view it is called on", 8)
+    c11.derived_from_receiver(repo, col, "R-C20-chain")
     # ... and the populations are selected with `net.cell(<index>)`: every index form names the cells it says (a slice with its step)
     c11._index(repo, col, "R-C20-views")
 
@@ -828,11 +831,15 @@ def _common(repo, col):
     def rename_facts(t, binding):
         """`X.rename(columns={old: new})` with X derived from one of the node-table parameters"""
         t = idx.subst(t, binding) if binding else t
+        from sa.terms import fuse_comprehensions as _fz
+        t = _fz(t)   # a comprehension over a literal tuple of (side, table) pairs is the list of its instances
         for x in t.walk():
             if x.op == "mcall" and x.name == "rename" and "columns" in x.kw and x.kw["columns"].op == "dict":
                 src = T.find(x.args[0], lambda y: y.op == "param" and y.name in fi.params)
                 for kv in x.kw["columns"].args:
                     parts = _str_parts(kv.args[1])
+                    if parts and all(isinstance(p_, str) for p_ in parts):
+                        parts = ["".join(parts)]
                     if src is not None and len(parts) == 1 and isinstance(parts[0], str):
                         seen[src.name] = parts[0]
 
